@@ -501,7 +501,7 @@ Notation build_job := (build_job E compress).
 Theorem update_container kd kt excl cond walk b es a a' jobs new :
   wf_archive b = true -> read_archive b = Ok es -> input_ok es -> logical b = Ok a ->
   Update.update_cmd kd kt excl cond a walk = Ok a' ->
-  let targets := filter (Update.wanted kd) walk in
+  let targets := Update.update_targets kd walk in
   let r := Update.update_pass excl cond a targets [] in
   map abs new = map (Update.fresh kt) (snd (fst r) ++ snd r) ->
   Forall2 carries jobs new -> Forall (wf_job E compress verify pw) jobs -> Forall (fun e => e_kind e <= 3) new ->
@@ -544,7 +544,7 @@ Qed.
 Corollary update_container_props kd kt excl cond walk b es a a' jobs new :
   wf_archive b = true -> read_archive b = Ok es -> input_ok es -> logical b = Ok a ->
   Update.update_cmd kd kt excl cond a walk = Ok a' ->
-  let targets := filter (Update.wanted kd) walk in
+  let targets := Update.update_targets kd walk in
   let r := Update.update_pass excl cond a targets [] in
   map abs new = map (Update.fresh kt) (snd (fst r) ++ snd r) ->
   Forall2 carries jobs new -> Forall (wf_job E compress verify pw) jobs -> Forall (fun e => e_kind e <= 3) new ->
@@ -559,18 +559,18 @@ Corollary update_container_props kd kt excl cond walk b es a a' jobs new :
           a' = filter (UpdateFacts.stays excl cond targets) a
                ++ map (Update.fresh kt) (flat_map (UpdateFacts.job excl cond targets) a)
                ++ map (Update.fresh kt) (filter (UpdateFacts.not_in a) targets)) /\
-       (NoDup (Update.names a) -> NoDup (map Update.node_name targets) -> NoDup (Update.names a')) /\
-       (excl = [] -> cond = 0 -> NoDup (map Update.node_name targets) -> forall n, In n targets ->
+       (NoDup (Update.names a) -> NoDup (Update.names a')) /\
+       (excl = [] -> cond = 0 -> forall n, In n targets ->
           filter (fun e => bytes_eqb (Update.e_path e) (Update.node_name n)) a' = [Update.fresh kt n])).
 Proof.
   intros WA RA IO L UC targets r Cn Hc Hw Hk Hr Wj.
   destruct (update_container kd kt excl cond walk b es a a' jobs new WA RA IO L UC Cn Hc Hw Hk Hr Wj)
     as (b' & es' & UF & _ & RW & _ & WA' & X).
   exists b', es'. split; [exact UF|]. split; [exact WA'|]. split; [exact RW|]. intros SD. split; [exact (X SD)|].
-  split; [exact (UpdateFacts.update_keeps_others kd kt excl cond a walk a' UC)|].
+  split; [exact (UpdateFacts.update_keeps_others_targets kd kt excl cond a walk a' UC)|].
   split; [intros ND; exact (UpdateFacts.update_spec kd kt excl cond a walk a' ND UC)|].
-  split; [intros ND NT; exact (UpdateFacts.update_nodup kd kt excl cond a walk a' ND NT UC)|].
-  intros -> -> NT n Hn. exact (UpdateFacts.update_exactly_once kd kt a walk a' n UC NT Hn).
+  split; [intros ND; exact (UpdateFacts.update_nodup kd kt excl cond a walk a' ND UC)|].
+  intros -> -> n Hn. exact (UpdateFacts.update_exactly_once_targets kd kt a walk a' n UC Hn).
 Qed.
 
 (* ================================================================================================= *)
@@ -653,9 +653,9 @@ Inductive fstep (b : bytes) (a : Update.archive) : Update.op -> bytes -> Prop :=
       read_archive b = Ok es -> input_ok es -> jobs_ok jobs new ->
       Update.step a (Update.OUpdate kd kt excl cond walk) = Ok a' ->
       map abs new = map (Update.fresh kt)
-        (snd (fst (Update.update_pass excl cond a (filter (Update.wanted kd) walk) [])) ++
-         snd (Update.update_pass excl cond a (filter (Update.wanted kd) walk) [])) ->
-      update_file excl cond (filter (Update.wanted kd) walk) (new_raws E compress jobs) b = Ok b' -> out_drains b' ->
+        (snd (fst (Update.update_pass excl cond a (Update.update_targets kd walk) [])) ++
+         snd (Update.update_pass excl cond a (Update.update_targets kd walk) [])) ->
+      update_file excl cond (Update.update_targets kd walk) (new_raws E compress jobs) b = Ok b' -> out_drains b' ->
       fstep b a (Update.OUpdate kd kt excl cond walk) b'.
 
 Theorem fstep_inv b a o b' : Inv b a -> fstep b a o b' -> Inv b' (Update.after a o).
